@@ -25,7 +25,7 @@ def read_back(ctx, text):
     env = {ps[0]: Lit(text)}
     for p in ps[1:]:
         env[p] = Const(False)
-    eng = Engine(ctx, BULK, fn, env=env, exceptions=True)
+    eng = Engine(ctx, BULK, fn, env=env, exceptions=True, inline=lambda name: True)      # conversion helpers are followed
     leaves = eng.run()
     if not leaves or any((lf.kind, lf.value if lf.kind == "return" else None) != (leaves[0].kind, leaves[0].value if leaves[0].kind == "return" else None)
                          for lf in leaves):
